@@ -111,6 +111,34 @@ CHECKS = {
         tech="exhaustive fault-injection enumeration (positions x item kinds x routes) with a differential oracle",
         sec="C07",
     ),
+    "C08": dict(
+        cat="fault_enumeration",
+        text="All small trees of the C02 alphabets (quick: <=3 nodes with every byte truncation + 4-node default-data trees; thorough: <=4 nodes) in XML and SGML rendering "
+        "and the documents of 12 realistic roots x every single fault of the property's list (truncation, each aggregate end tag deleted/duplicated/misspelled/replaced, "
+        "adjacent end tags transposed, stray end tag or text after every end tag, second top-level element); the strict reference reader filters faults that leave the text "
+        "well-formed; every remaining text must make TreeBuilder.feed+close and OFXTree.parse raise.",
+        note="Single faults only; tag/data alphabets as in C02.",
+        tech="exhaustive single-fault enumeration over all small well-formed bodies, reference reader as well-formedness oracle",
+        sec="C08",
+    ),
+    "C11": dict(
+        cat="exploration",
+        text="Every class x every data element x a trouble-value alphabet per type (decimals with positive/tiny exponents, normalize(), NaN/sNaN/Infinity, 29-30 digits; integer "
+        "limits and bool; strings with markup, CDATA delimiters, entity text, at the limit; date-times in 5 zones with sub-ms carries; every enumeration token): leaf texts of "
+        "to_etree() against the lexical rule of the declared type, then all 6 wire forms read by the strict reference reader; invalid ElementList members added via the list API.",
+        note="Refusal at construction/to_etree/serialize is accepted; NagString not held to its limit.",
+        tech="exhaustive enumeration of (class, element, trouble value) x wire forms against reference lexical rules",
+        sec="C11",
+    ),
+    "C16": dict(
+        cat="exploration",
+        text="Every class x instance shapes (MIN, MAXS, each optional sub-aggregate / group / repeated kind toggled) x every name declared by exactly one non-repeated descendant "
+        "(identity with the stored object or a clean miss) + undefined names (AttributeError, hasattr, default) + copy/deepcopy/pickle + alias properties; OFX trees from every "
+        "sequence of <=3 wrappers over 7 request and 8 response kinds: statements shortcuts equal the explicit walk by identity and order.",
+        note="Names defined by several descendants or shadowed by class attributes are not demanded.",
+        tech="exhaustive enumeration of instance shapes x attribute names, explicit-path walk as reference",
+        sec="C16",
+    ),
 }
 
 NA_REASON = "check not built yet in this revision of /verif (planned: see DESIGN.md section 3); nothing is claimed for it"
